@@ -368,6 +368,44 @@ func parseGV(ts []string) (*gv, []string, bool) {
 }
 
 // encGo renders a Go value that came back from Simplify as G tokens.
+// encBagTree writes a bag's Go tree in the model's J tokens (an integer held as json.Number is an
+// integer; a time is the token of its RFC 3339 text).
+func encBagTree(v any) []string {
+	switch t := v.(type) {
+	case nil:
+		return []string{"n"}
+	case bool:
+		if t {
+			return []string{"T"}
+		}
+		return []string{"F"}
+	case int64:
+		return []string{"i" + strconv.FormatInt(t, 10)}
+	case json.Number:
+		return []string{"i" + string(t)}
+	case float64:
+		return []string{"d" + fmtFloat(t)}
+	case string:
+		return []string{"s" + lib.Hex(t)}
+	case time.Time:
+		return []string{"m" + lib.Hex(t.UTC().Format(time.RFC3339Nano))}
+	case []any:
+		out := []string{"["}
+		for _, c := range t {
+			out = append(out, encBagTree(c)...)
+		}
+		return append(out, "]")
+	case map[string]any:
+		out := []string{"{"}
+		for _, k := range sortedKeys(t) {
+			out = append(out, "k"+lib.Hex(k))
+			out = append(out, encBagTree(t[k])...)
+		}
+		return append(out, "}")
+	}
+	return []string{fmt.Sprintf("?%T", v)}
+}
+
 func encGo(v any) []string {
 	switch t := v.(type) {
 	case nil:
